@@ -90,7 +90,18 @@ func c19Init() {
 	for t := 1; t <= 3; t++ {
 		for i := range ids {
 			for h := range hs {
-				c19Grid = append(c19Grid, &entry.Entry{Hash: hs[h], LogID: "X", Payload: []byte("x"), Clock: entry.NewLamportClock(ids[i], t)})
+				e := &entry.Entry{Hash: hs[h], LogID: "X", Payload: []byte("x"), Clock: entry.NewLamportClock(ids[i], t)}
+				// links between entries that tie on their whole clock: the entry with the smallest hash names the one with
+				// the largest as a predecessor, the middle one names the smallest (a writer chooses clocks and links);
+				// an ordering looks at clocks and hashes, never at links
+				switch h {
+				case 0:
+					e.Next = []cid.Cid{hs[len(hs)-1]}
+				case 1:
+					e.Next = []cid.Cid{hs[0]}
+					e.Refs = []cid.Cid{hs[len(hs)-1]}
+				}
+				c19Grid = append(c19Grid, e)
 				c19Desc = append(c19Desc, fmt.Sprintf("(t=%d,id=%s,h%d)", t, idn[i], h+1))
 			}
 		}
